@@ -221,7 +221,7 @@ fn layer_two(ctx: &Ctx, totals: &mut LoomTotals) {
     games.extend(collision_games());
     let targets: Vec<usize> = if ctx.thorough() { (2..=8).collect() } else { (2..=6).collect() };
     let lb = if ctx.thorough() {
-        LoomBounds { pb3: Some(3), pb4: Some(2), max_permutations: 300_000, max_seconds: 300 }
+        LoomBounds { pb3: Some(3), pb4: Some(2), max_permutations: 150_000, max_seconds: 120 }
     } else {
         LoomBounds { pb3: Some(2), pb4: Some(1), max_permutations: 30_000, max_seconds: 40 }
     };
